@@ -12,7 +12,7 @@ RULE = ("G5 universes (list + local/server trees) and G7 histories [calls, creat
 ASSUME = ["R7 (lib/existmodel) gives the existing set: path-backed levels from the tree, constant-backed levels from the live configuration's constants",
           "parent existence is not judged for levels that have neither a path template nor constants (reported as 'unbacked level')",
           "siblings of a one-field (root) Sid are not judged"]
-BUDGET = {"quick": (128, 30), "thorough": (2400, 60)}
+BUDGET = {"quick": (128, 30), "thorough": (6400, 60)}
 NSHARDS = 16
 
 
